@@ -190,6 +190,10 @@ def run(tier='quick'):
                         'result presence / rows_modified() is tested and the empty case throws', floor=5)
     B6 = chk.rule('B6', 'an accessor is refused (throws unsupported_operation) for exactly the 2.x versions '
                         'whose DDL lacks its column', floor=90)
+    B7 = chk.rule('B7', 'an existence lookup that guards an INSERT in an add function compares a complete '
+                        'unique key of the table (as declared in the DDL of every admitted version), bound from '
+                        'the row fields the INSERT stores in those columns: a lookup on fewer columns can match '
+                        'a different row, and the add then writes nothing', floor=1)
     chk.assume('SQLite stores and returns bound values of the declared affinity unchanged; time_point '
                'conversions (chrono.cpp) are value-level and not decided here')
 
@@ -219,6 +223,7 @@ def run(tier='quick'):
 
     _accessors(prog, cg, chk, B4, B6, col_of_field.get('track_table', {}), order, cats, lo2, hi2)
     _row_existence(prog, cg, eff, chk, B5)
+    _lookup_keys(prog, cg, eff, chk, B7, order, cats, lo2, hi2)
     chk.extra['statements'] = len(all_maps)
     return chk.finish('statement-level analysis of the five 2.x table classes: %d statement instances '
                       'parsed from string literals, binds and sinks resolved to row fields through the '
@@ -352,3 +357,60 @@ def _row_existence(prog, cg, eff, chk, B5):
                               '%s issues %s without testing rows_modified() / the result: naming a row '
                               'that does not exist succeeds silently' % (
                                   inst, ', '.join(s.stored_in.kind.upper() for s in writes) or 'a SELECT'))
+
+
+def _lookup_keys(prog, cg, eff, chk, B7, order, cats, lo2, hi2):
+    from .. import valueflow as vf
+    for cls, (table, record) in TABLES.items():
+        for f in table_functions(prog, cls):
+            if not f.name.startswith('add') or f.cls is None:
+                continue
+            ip = vf.Interp(prog, cg, eff)
+            ip.run(f)
+            inserts = [w for w in ip.writes if w.kind == 'insert' and w.table and w.table.lower() == table.lower()]
+            if not inserts:
+                continue
+            stored = {}
+            for w in inserts:
+                stored.setdefault(w.column, set()).update(
+                    (x[1], x[2]) for x in vf.leaves(w.value) if x[0] == 'in')
+            lookups = [r for r in ip.reads if r[0] and r[0].lower() == table.lower() and r[3]]
+            for (t, outs, loc, where, rfunc) in lookups:
+                wcols = {c.lower() for c in where}
+                # only lookups keyed by the row being added
+                keyed = {c for c, v in where.items() if any(x[0] == 'in' for x in vf.leaves(v))}
+                if not keyed:
+                    continue
+                problems = []
+                for vi in range(lo2, hi2 + 1):
+                    kind, obj, cat = rowrules.lookup_table(cats[order[vi]], table)
+                    if kind != 'table':
+                        continue
+                    keys = [set(c.lower() for c in u) for u in (obj.uniques or [])]
+                    pk = [c.lower() for c in cat.pk_columns(obj)]
+                    if pk:
+                        keys.append(set(pk))
+                    if not keys:
+                        continue
+                    if not any(k <= wcols for k in keys):
+                        problems.append((order[vi], [sorted(k) for k in keys]))
+                inst = '%s::%s lookup on %s(%s)' % (cls, f.name, table, ', '.join(sorted(wcols)))
+                if problems:
+                    chk.violation(B7, 'v2::%s::%s|lookup key %s' % (cls, f.name, ','.join(sorted(wcols))), loc,
+                                  '%s (in %s) guards the INSERT but covers no complete unique key of %s (keys: %s): '
+                                  'it can match a different row, in which case add() writes nothing and returns '
+                                  'that row\'s id' % (inst, rfunc.qualname.replace('djinterop::engine::', ''),
+                                                      table, problems[0][1]))
+                else:
+                    # same fields on both sides
+                    bad = []
+                    for c, v in where.items():
+                        src = {(x[1], x[2]) for x in vf.leaves(v) if x[0] == 'in'}
+                        if c.lower() in stored and src and stored[c.lower()] and src != stored[c.lower()]:
+                            bad.append((c, sorted(src), sorted(stored[c.lower()])))
+                    if bad:
+                        chk.violation(B7, 'v2::%s::%s|lookup binds %s' % (cls, f.name, bad[0][0]), loc,
+                                      '%s compares column %s with %s but the INSERT stores %s there' % (
+                                          inst, bad[0][0], bad[0][1], bad[0][2]))
+                    else:
+                        chk.ok(B7, inst + ' covers a unique key', loc)
